@@ -384,7 +384,7 @@ def run_case(case, seg, viol, stats, sample):
                                             reported=[[list(a), round(b, 4)] for a, b in rep.items()][:6])})
                 break
 
-    SIM.reset({"monitor": True})
+    SIM.reset({"max_solves": 4000, "max_wall": 90.0, "monitor": True})
     sols = call()
     stats["runs"] += 1
     nsolves = SIM.solve_index
@@ -400,7 +400,7 @@ def run_case(case, seg, viol, stats, sample):
     stats["brute_structs"] += len(table)
     containment(plain, table, "plain")
     for a in seg["advs"]:
-        SIM.reset({"adversary": a, "monitor": True})
+        SIM.reset({"max_solves": 4000, "max_wall": 90.0, "adversary": a, "monitor": True})
         sols2 = call()
         stats["runs"] += 1
         adv = per_solution(sols2, f"adversary:{a}")
@@ -412,7 +412,7 @@ def run_case(case, seg, viol, stats, sample):
         if (b1 is None) != (b2 is None) or (b1 is not None and abs(b1 - b2) > TOL):
             viol.append({"clause": "best structure score depends on which optimum the solver returns",
                          "detail": dict(detail0, plain=b1, adversary=b2, seed=a)})
-    SIM.reset({"jitter": seg["jitter"], "monitor": True})
+    SIM.reset({"max_solves": 4000, "max_wall": 90.0, "jitter": seg["jitter"], "monitor": True})
     j = per_solution(call(), "jitter")
     stats["runs"] += 1
     if {k for k, _ in j} != {k for k, _ in plain}:
@@ -421,7 +421,7 @@ def run_case(case, seg, viol, stats, sample):
     if nsolves:
         k = frng.randrange(nsolves)
         kind = frng.choice(["infeasible", "abnormal", "not_solved", "incumbent", "verify"])
-        SIM.reset({"faults": [{"at": k, "kind": kind, "seed": k}], "monitor": False})
+        SIM.reset({"max_solves": 4000, "max_wall": 90.0, "faults": [{"at": k, "kind": kind, "seed": k}], "monitor": False})
         f = per_solution(call(), f"fault:{kind}@{k}")
         stats["runs"] += 1
         stats["faults"] += 1
@@ -473,7 +473,7 @@ def run_segment(seg):
     for case in seg["cases"]:
         run_case(case, seg, viol, stats, sample)
     if seg.get("config_clauses"):
-        SIM.reset({})
+        SIM.reset({"max_solves": 4000, "max_wall": 90.0})
         config_clauses(seg, viol, stats)
         stats["runs"] += 1
     stats["shapes"] = sorted(stats["shapes"])
